@@ -208,11 +208,11 @@ theorem snyder_merc_eq (s : Model.SR ℝ) (c : Model.Consts ℝ) (lon lat : ℝ)
     (hp : ¬ (|(|lat| - Real.pi / 2)| ≤ 1.0e-10))
     (hd : |lon - Model.gnum s.long0| ≤ Real.pi) :
     Model.mercFwd s c lon lat =
-      .ok (Spec.Ref.merc (Model.aS s) s.e c.k0 (Model.gnum s.long0) (Model.gnum s.x0) (Model.gnum s.y0) lon lat) := by
+      .ok (Spec.Ref.merc (Model.aS s) c.e c.k0 (Model.gnum s.long0) (Model.gnum s.x0) (Model.gnum s.y0) lon lat) := by
   unfold Model.mercFwd Gen.Go.Merc_forward Spec.Ref.merc
   rnum
   rw [adjust_lon_eq_wrap _ hd]
-  have hy := snyder_merc_y s.e lat
+  have hy := snyder_merc_y c.e lat
   have hp' : ¬ (|(|lat| - Real.pi / 2)| ≤ 1e-10) := by norm_num at hp ⊢; exact hp
   simp only [hs, h90, hm90, hp', decide_false, Bool.or_false, Bool.false_eq_true, if_false, ite_false]
   congr 2
@@ -328,7 +328,7 @@ range test `lat*R2D > 90 && lat*R2D < -90 && …` can never hold) -/
 theorem go_merc_fwd_eq_js (s : Model.SR ℝ) (c : Model.Consts ℝ) (o : Js.Obj ℝ) (lon lat : ℝ) (z : Option ℝ)
     (h90 : ¬ (90 < lat * 57.29577951308232088)) (hm90 : ¬ (lat * 57.29577951308232088 < -90))
     (ha : Js.num o.a = Model.gnum s.a) (hx : Js.num o.x0 = Model.gnum s.x0) (hy : Js.num o.y0 = Model.gnum s.y0)
-    (hl : Js.num o.long0 = Model.gnum s.long0) (hk : Js.num o.k0 = c.k0) (he : o.e = s.e) (hsph : o.sphere = s.sphere) :
+    (hl : Js.num o.long0 = Model.gnum s.long0) (hk : Js.num o.k0 = c.k0) (he : o.e = c.e) (hsph : o.sphere = s.sphere) :
     okOf (Model.mercFwd s c lon lat) = xyOf (Js.mercForward o ⟨lon, lat, z⟩) := by
   have hc := go_consts_eq_js
   unfold Model.mercFwd Gen.Go.Merc_forward Js.mercForward Model.aS Js.aO xyOf okOf
